@@ -39,7 +39,7 @@ def gen_symbols(rng, shape):
             name = bytes([rng.choice(b"abc$._@")]) * rng.randint(1, 20)
         t, b = rng.randrange(16), rng.choice([0, 1, 2, 10, 13, rng.randrange(16)])
         value = rng.choice([0, 1, rng.getrandbits(31), rng.getrandbits(63), (1 << 64) - 1])
-        size = rng.choice([0, 0, 1, 8, rng.getrandbits(20)])
+        size = rng.choice([0, 0, 1, 8, rng.getrandbits(20), (1 << 32) - 1, 1 << 32, (1 << 32) + 4, (1 << 63) + 16, (1 << 64) - 1, rng.getrandbits(64)])
         shndx = rng.choice([0xfff1, 0xfff1, 0, 1, 2, 3])
         syms.append((name, value, size, (b << 4) | t, rng.randrange(4) | rng.choice([0, 0, 0x20]), shndx))
     return syms
@@ -102,6 +102,7 @@ def job(payload):
             seed, machines = arg
             rng = random.Random(seed)
             os.makedirs(os.path.join(common.RUN, "syms"), exist_ok=True)
+            made, keep = [], False
             for m in machines:
                 shape = rng.choice(["small", "small", "all", "empty", "many"] if rng.random() < 0.15 else ["small", "small", "all", "empty"])
                 cls = rng.choice([64, 64, 32])
@@ -123,10 +124,34 @@ def job(payload):
                     out["files"] += 1
                     out["machines"] += 1
                 out["bad"] += bad[:3]
-                if not bad:
-                    os.unlink(p)
+                keep = keep or bool(bad)
+                made.append((p, tag))
                 if len(out["samples"]) < 1:
                     out["samples"].append(tag)
+            # ONE compiled query run on the files of all these machines in turn: what it yields for a file must be what a
+            # fresh compile-and-run yields for that file alone (nothing about an earlier file's machine may stick to the query)
+            if len(made) > 1:
+                fresh = {}
+                for p, tag in made:
+                    fresh[p] = d.run(Q, inp="d:" + common.hx(p), fuel=0, max=2000000, timeout=600)
+                d.req("parse id=c18q q=%s" % common.hx(Q))
+                order = list(made) + list(reversed(made))
+                for p, tag in order:
+                    d.req("exec qid=c18q rid=c18r in=d:%s fuel=0" % common.hx(p))
+                    rr = d.req("next rid=c18r max=2000000 fuel=0", timeout=600)
+                    d.req("rdestroy rid=c18r")
+                    out["shared_query_runs"] = out.get("shared_query_runs", 0) + 1
+                    if json.dumps(rr.get("res"), sort_keys=True) != json.dumps(fresh[p].get("res"), sort_keys=True):
+                        k = next((i for i, (a, b) in enumerate(zip(rr.get("res", []), fresh[p].get("res", []))) if a != b), None)
+                        out["bad"].append(("query-compiled-once-yields-differently-for-a-later-file", dict(file=tag, first_file=made[0][1], symbol_index=k,
+                                                                                                             got=[v.get("f") for v in (rr["res"][k][-1]["v"][4:7] if k is not None else [])],
+                                                                                                             want=[v.get("f") for v in (fresh[p]["res"][k][-1]["v"][4:7] if k is not None else [])])))
+                        keep = True
+                        break
+                d.req("qdestroy id=c18q")
+            if not keep:
+                for p, tag in made:
+                    os.unlink(p)
         else:
             bad = []
             if check_file(d, arg, os.path.basename(arg), out, bad):
@@ -197,7 +222,7 @@ def run(chk):
         "rule": "one evaluation = one symbol table entry compared field by field (+3 constant renderings) or one cross-machine equality cell; distinct_nontrivial = files",
         "files": tot.get("files", 0), "generated_files": tot.get("machines", 0), "machines_in_elf_h": len(machines),
         "constant_renderings_checked": tot.get("renderings", 0), "of_which_named_by_elf_h": tot.get("named", 0),
-        "cross_machine_cells": tot.get("cross", 0),
+        "cross_machine_cells": tot.get("cross", 0), "runs_of_one_compiled_query_over_files_of_different_machines": tot.get("shared_query_runs", 0),
         "samples": samples[:6],
     })
     chk.assumptions += ["values of symbols defined in sections of ET_REL files are relocated by libdwfl and not judged; SHN_ABS/SHN_UNDEF symbols and all symbols of ET_EXEC/ET_DYN files are",
